@@ -683,6 +683,26 @@ pub mod extra {
                 let w = plant(&mut s, &mut rng, d, in_ctx);
                 push(&format!("{} operand of # is a {}", if left { "left" } else { "right" }, name), w, &s);
             }
+            // the same violations to the right of a left operand that evaluates to the EMPTY class
+            // (a checker that stops looking once nothing is left to remove would miss them)
+            let bad2: Vec<(&str, Re)> = vec![
+                ("string", Re::str("ab")),
+                ("`*`", Re::star(Re::Chr('a'))),
+                ("`+`", Re::plus(Re::Chr('a'))),
+                ("`?`", Re::opt(Re::Chr('a'))),
+                ("concatenation", Re::cat(Re::Chr('a'), Re::Chr('b'))),
+                ("`$`", Re::Eoi),
+                ("unbound variable", Re::var("nope")),
+                ("unknown built-in", Re::bi("nope")),
+            ];
+            for (name, x) in bad2 {
+                let mut s = base.clone();
+                let empty_left = Re::diff(Re::range('a', 'c'), Re::range('a', 'z'));
+                let d = Re::diff(empty_left, x.clone());
+                // keep the rule matchable: alternative next to an ordinary character
+                let w = plant(&mut s, &mut rng, Re::alt(d, Re::Chr('q')), false);
+                push(&format!("right operand of # after an empty left class is a {}", name), w, &s);
+            }
             // variable bound to a non-class
             let mut s = base.clone();
             s.lets.push(("nc".to_string(), Re::str("ab")));
